@@ -29,7 +29,7 @@ ASSUMPTIONS = [
     "image height and width are multiples of the output stride, plus a few sizes that are not (2 in quick, 6 in thorough): there the shape clause H/stride accepts floor or ceil and every cell of the returned grid is checked against the Gaussian at (col*stride, row*stride)",
     "coordinates come from the alphabet {NaN,-3,-0.5,0,0.25,1,2.5,size-1,size-0.5,size+2,1e4,+inf} per axis (thorough: plus the "
     "quarter-pixel lattice -1..size+0.5); larger shapes use the reduced keypoint alphabets R12/R6/R5/R4/R3 defined in the module",
-    "rows beyond num_instances are all-NaN padding (what the pipelines produce); num_instances = number of non-padding rows",
+    "rows beyond num_instances are all-NaN padding (what the pipelines produce); num_instances = number of non-padding rows (0 for a frame without labelled animals: only padding slots)",
     "float32 arithmetic: |out-ref| <= 1e-5 + 1e-5*|ref|; the nearest-cell clause allows 4 float32 ulps at 1.0 for tied/rounded cells",
     "sizes <= 12 (24 for stride 8), animals,nodes <= 2 (thorough 3), strides {1,2,4} (thorough +8), sigma {0.5,1.5,3}",
 ]
@@ -446,7 +446,7 @@ def spec_samples(spec, idx):
     total = int(np.prod([len(a) for a in alphs]))
 
     def rows(ix):
-        r = gen_rows(alphs, ix).reshape(len(ix), A, N, 2)
+        r = np.zeros((len(ix), 0, N, 2)) if A == 0 else gen_rows(alphs, ix).reshape(len(ix), A, N, 2)
         if p:
             r = np.concatenate([r, np.full((len(ix), p, N, 2), NAN)], axis=1)
         return r
@@ -478,8 +478,9 @@ def shape_table(tier_part):
         return {
             "single3": [(1, 1, ["K"], (0,)), (1, 2, ["R12"] * 2, (0,))],
             "single4": [(1, 2, ["R12"] * 2, (0,)), (2, 1, ["R12"] * 2, (0,)), (2, 2, ["R5"] * 4, (0,))],
-            "multi": [(1, 1, ["K"], (0, 1)), (1, 2, ["R12"] * 2, (0, 1)), (2, 1, ["R12"] * 2, (0, 1)), (2, 2, ["R5"] * 4, (0, 1))],
-            "cent": [(1, 1, ["K"], (0, 1)), (2, 1, ["R12"] * 2, (0, 1))],
+            "multi": [(1, 1, ["K"], (0, 1)), (1, 2, ["R12"] * 2, (0, 1)), (2, 1, ["R12"] * 2, (0, 1)), (2, 2, ["R5"] * 4, (0, 1)),
+                      (0, 1, [], (1, 2)), (0, 2, [], (1, 3))],  # A = 0: a frame without any labelled animal (only padding slots)
+            "cent": [(1, 1, ["K"], (0, 1)), (2, 1, ["R12"] * 2, (0, 1)), (0, 1, [], (1, 2, 3))],
         }
     if tier_part == "heavy":
         return {
